@@ -409,4 +409,44 @@ theorem iterate_no_conv {f : ℝ → ℝ} {f' : Option (ℝ → ℝ)} {tol conv 
         simp at hh
       · exact ih _ _ _ _ _ _ h1 h3 hr
 
+
+/-! ### the wrapper `findRoot` -/
+
+section wrapper
+variable {f : ℝ → ℝ} {f' : Option (ℝ → ℝ)} {x0 lo hi tol conv : ℝ} {n : Nat}
+
+/-- Without a bracketed root the Go code panics ("Invalid range"); with one it runs the iteration loop. -/
+theorem findRoot_eq (h1 : f lo ≤ 0) (h2 : 0 ≤ f hi) :
+    findRoot f f' x0 lo hi tol conv n =
+      .ok (iterate f f' tol conv n x0 (f x0) ⟨lo, f lo, hi, f hi⟩ [lo, hi, x0] []) := by
+  unfold findRoot
+  simp only [RealNum.ofNat_eq, Nat.cast_zero]
+  rw [if_neg (by rintro (h | h) <;> linarith)]
+
+theorem init_binv (hle : lo ≤ hi) (h1 : f lo ≤ 0) (h2 : 0 ≤ f hi) : BInv f lo hi ⟨lo, f lo, hi, f hi⟩ :=
+  ⟨hle, le_refl _, le_refl _, rfl, rfl, h1, h2⟩
+
+theorem init_evals (hle : lo ≤ hi) (hx0 : lo ≤ x0 ∧ x0 ≤ hi) : EvalsIn lo hi [lo, hi, x0] := by
+  intro e he
+  simp only [List.mem_cons, List.not_mem_nil, or_false] at he
+  rcases he with rfl | rfl | rfl
+  · exact ⟨le_refl _, hle⟩
+  · exact ⟨hle, le_refl _⟩
+  · exact hx0
+
+theorem post (hle : lo ≤ hi) (h1 : f lo ≤ 0) (h2 : 0 ≤ f hi) (hx0 : lo ≤ x0 ∧ x0 ≤ hi) {r : Res ℝ}
+    (hr : findRoot f f' x0 lo hi tol conv n = .ok r) : Post f lo hi tol r := by
+  rw [findRoot_eq h1 h2] at hr
+  cases hr
+  exact iterate_post _ _ _ _ _ _ _ (init_binv hle h1 h2) rfl hx0 (init_evals hle hx0) rfl
+
+end wrapper
+
+theorem trialStep_accept (f : ℝ → ℝ) (tol conv x : ℝ) (s : Inner ℝ) (t : ℝ) (h : |f t| < tol) :
+    trialStep f tol conv x s t = .inl (t, f t, { s with evals := t :: s.evals }) := by
+  rcases trialStep_spec f tol conv x s t with ⟨_, h'⟩ | ⟨hn, _⟩
+  · exact h'
+  · exact absurd h hn
+
+
 end OW.Proofs.FindRoot
